@@ -438,8 +438,15 @@ func (ip *Interp) runFrame(fr *frame) {
 			}
 		}
 		jumped := false
+		initFrame := ip.inInit && fr.fn.Synthetic == "package initializer"
 		for ; i < len(blk.Instrs); i++ {
-			switch ip.visitInstr(fr, blk.Instrs[i]) {
+			var k continuation
+			if initFrame {
+				k = ip.visitInitInstr(fr, blk.Instrs[i])
+			} else {
+				k = ip.visitInstr(fr, blk.Instrs[i])
+			}
+			switch k {
 			case kReturn:
 				return
 			case kJump:
@@ -738,4 +745,31 @@ func (ip *Interp) Where() string {
 		return "?"
 	}
 	return fmt.Sprintf("%s in %s at %s", ip.cur, ip.cur.Parent(), ip.posOf(ip.cur))
+}
+
+// visitInitInstr interprets one instruction of a package initialiser,
+// poisoning its result if it cannot be modelled.
+func (ip *Interp) visitInitInstr(fr *frame, instr ssa.Instruction) (k continuation) {
+	defer func() {
+		if e := recover(); e != nil {
+			msg := ""
+			if pe, ok := e.(pathEnd); ok && pe.Kind == "oom" {
+				msg = pe.Msg
+			} else if _, ok := e.(interface{ RuntimeError() }); ok {
+				msg = fmt.Sprintf("engine cannot interpret (%v)", e)
+			} else {
+				panic(e)
+			}
+			switch instr.(type) {
+			case *ssa.If, *ssa.Jump, *ssa.Return, *ssa.Panic:
+				panic(e)
+			}
+			ip.initPoison = append(ip.initPoison, fmt.Sprintf("%s: %s", fr.fn.Pkg.Pkg.Path(), msg))
+			if v, ok := instr.(ssa.Value); ok {
+				fr.set(v, poisonFor(v.Type(), msg))
+			}
+			k = kNext
+		}
+	}()
+	return ip.visitInstr(fr, instr)
 }
